@@ -56,64 +56,88 @@ theorem fmtopts_lone_fill_no_repr :
     parse (render { fill := some [95], repr := some .hexLower }) 1 = .error (.unexpected 120) := by
   decide
 
-/-! ## `source_slice` -/
+/-! ## `source_slice` (since /repo b1042e7: token-boundary table, column arithmetic as fallback) -/
+
+/-- `srcslice_boundary`: for a token `tok` on line `k` after the characters `pre` — whatever their
+byte lengths and display widths, and whatever positions `sp`, `ep` the lexer reports for the
+token's ends — if the token-boundary table maps `sp` and `ep` to the token's true byte offsets
+(and to nothing else), `source_slice` returns exactly the token's text. This is the case for every
+number literal, comment and `#[fmt:skip]` region (their spans are token spans; the table is built
+from the same lexer pass that produced those spans). -/
+theorem srcslice_boundary (ls : List Line) (tbl : Table) (k : Nat) (pre tok post : List Ch) (sp ep : Pos)
+    (hline : ls[k]? = some (pre ++ tok ++ post))
+    (hbytes : ∀ l ∈ ls, ∀ c ∈ l, 1 ≤ c.bytes)
+    (hs : (sp, truePos ls k pre) ∈ tbl) (he : (ep, truePos ls k (pre ++ tok)) ∈ tbl)
+    (hfs : ∀ b, (sp, b) ∈ tbl → b = truePos ls k pre)
+    (hfe : ∀ b, (ep, b) ∈ tbl → b = truePos ls k (pre ++ tok)) :
+    sourceSliceText ls tbl { start := sp, stop := ep } = some tok :=
+  Lemmas.slice_text_tbl ls tbl k pre tok post sp ep hline hbytes hs he hfs hfe
+
+/-- Non-vacuity and regression for F-C11-3: `é = 1; 99` — with the table, the span of `99`
+(columns 7..9, bytes 8..10) is copied as `99`, and the span of `1` as `1`. -/
+theorem srcslice_witness_fixed :
+    let a (c : Nat) : Ch := { cp := c, bytes := 1, width := 1 }
+    let e : Ch := { cp := 233, bytes := 2, width := 1 }
+    let line : Line := [e, a 32, a 61, a 32, a 49, a 59, a 32, a 57, a 57, a 10]
+    let tbl : Table := [(⟨0, 0⟩, 0), (⟨0, 1⟩, 2), (⟨0, 2⟩, 3), (⟨0, 3⟩, 4), (⟨0, 4⟩, 5), (⟨0, 5⟩, 6),
+      (⟨0, 6⟩, 7), (⟨0, 7⟩, 8), (⟨0, 9⟩, 10), (⟨1, 0⟩, 11)]
+    sourceSliceText [line] tbl { start := lexPos 0 (line.take 7), stop := lexPos 0 (line.take 9) }
+        = some [a 57, a 57]
+      ∧ sourceSliceText [line] tbl { start := lexPos 0 (line.take 4), stop := lexPos 0 (line.take 5) }
+        = some [a 49] := by decide
+
+/-- `'éé'#c`: the comment (columns 4..6, bytes 6..8) is copied whole; no character is cut. -/
+theorem srcslice_no_panic_fixed :
+    let a (c : Nat) : Ch := { cp := c, bytes := 1, width := 1 }
+    let e : Ch := { cp := 233, bytes := 2, width := 1 }
+    let line : Line := [a 39, e, e, a 39, a 35, a 99, a 10]
+    let tbl : Table := [(⟨0, 0⟩, 0), (⟨0, 1⟩, 1), (⟨0, 3⟩, 5), (⟨0, 4⟩, 6), (⟨0, 6⟩, 8), (⟨1, 0⟩, 9)]
+    sourceSliceText [line] tbl { start := lexPos 0 (line.take 4), stop := lexPos 0 (line.take 6) }
+      = some [a 35, a 99] := by decide
+
+/-! ### The fallback (positions that are not token boundaries) — and what the code did before the fix -/
+
+/-- Off the table `byte_offset` is the column arithmetic. -/
+theorem srcslice_fallback (ls : List Line) (tbl : Table) (p : Pos) (h : lookup tbl p = none) :
+    byteOf ls tbl p = byteOfCol ls p :=
+  Lemmas.byteOf_fallback ls tbl p h
 
 /-- If every character in front of a point on its line advances the lexer's column by its byte
-length, the byte offset `source_slice` computes for that point is the true one — for every line and
-every point (start or end of any token, on any line; multi-line tokens included). -/
+length, the byte offset the column arithmetic computes for that point is the true one — for every
+line and every point (multi-line tokens included). -/
 theorem srcslice_ascii_offsets (ls : List Line) (k₁ k₂ : Nat) (pre₁ pre₂ : List Ch)
     (h₁ : ∀ c ∈ pre₁, c.width = c.bytes) (h₂ : ∀ c ∈ pre₂, c.width = c.bytes) :
-    sourceSlice ls { start := lexPos k₁ pre₁, stop := lexPos k₂ pre₂ }
+    sourceSliceCol ls { start := lexPos k₁ pre₁, stop := lexPos k₂ pre₂ }
       = (truePos ls k₁ pre₁, truePos ls k₂ pre₂) :=
   Lemmas.slice_offsets ls k₁ k₂ pre₁ pre₂ h₁ h₂
 
-/-- `srcslice_ascii`: for a token `tok` on line `k` after the characters `pre`, when every character
-of `pre` and `tok` has column advance = byte length (and characters are at least one byte),
-`source_slice` of the lexer's span is exactly the token's text. -/
+/-- `srcslice_ascii`: the column arithmetic alone returns the token's text when every character
+of `pre` and `tok` has column advance = byte length. -/
 theorem srcslice_ascii (ls : List Line) (k : Nat) (pre tok post : List Ch)
     (hline : ls[k]? = some (pre ++ tok ++ post))
     (hbytes : ∀ l ∈ ls, ∀ c ∈ l, 1 ≤ c.bytes)
     (hpre : ∀ c ∈ pre, c.width = c.bytes) (htok : ∀ c ∈ tok, c.width = c.bytes) :
-    sourceSliceText ls { start := lexPos k pre, stop := lexPos k (pre ++ tok) } = some tok :=
-  Lemmas.slice_text ls k pre tok post hline hbytes hpre htok
+    sourceSliceTextCol ls { start := lexPos k pre, stop := lexPos k (pre ++ tok) } = some tok :=
+  Lemmas.slice_text_col ls k pre tok post hline hbytes hpre htok
 
 /-- Non-vacuity: `x = 42` on the second line. -/
 example :
     let a (c : Nat) : Ch := { cp := c, bytes := 1, width := 1 }
-    sourceSliceText [[a 35, a 10], [a 120, a 32, a 61, a 32, a 52, a 50, a 10]]
+    sourceSliceTextCol [[a 35, a 10], [a 120, a 32, a 61, a 32, a 52, a 50, a 10]]
       { start := lexPos 1 [a 120, a 32, a 61, a 32], stop := lexPos 1 [a 120, a 32, a 61, a 32, a 52, a 50] }
       = some [a 52, a 50] := by decide
 
-/-- `srcslice_witness`: `é = 1; 99` — `é` is two bytes and advances the column by one, so the span
-of `99` (columns 7..9) is read as bytes 7..9 = `" 9"`, and the span of `1` as `" "`. -/
-theorem srcslice_witness :
+/-- What changed (the column arithmetic, i.e. the whole behaviour before b1042e7 and still the
+fallback): `é = 1; 99` is read as `" 9"`, and `'éé'#c` cuts a character. So the hypothesis of
+`srcslice_ascii` cannot be dropped for the fallback, and `srcslice_boundary` needs the table. -/
+theorem srcslice_fallback_witness :
     let a (c : Nat) : Ch := { cp := c, bytes := 1, width := 1 }
     let e : Ch := { cp := 233, bytes := 2, width := 1 }
     let line : Line := [e, a 32, a 61, a 32, a 49, a 59, a 32, a 57, a 57, a 10]
-    sourceSliceText [line] { start := lexPos 0 (line.take 7), stop := lexPos 0 (line.take 9) }
+    let line2 : Line := [a 39, e, e, a 39, a 35, a 99, a 10]
+    sourceSliceTextCol [line] { start := lexPos 0 (line.take 7), stop := lexPos 0 (line.take 9) }
         = some [a 32, a 57]
-      ∧ sourceSliceText [line] { start := lexPos 0 (line.take 4), stop := lexPos 0 (line.take 5) }
-        = some [a 32]
-      ∧ truePos [line] 0 (line.take 7) = 8 := by decide
-
-/-- The hypothesis of `srcslice_ascii` cannot be dropped. -/
-theorem srcslice_needs_ascii :
-    ¬ (∀ (ls : List Line) (k : Nat) (pre tok post : List Ch),
-        ls[k]? = some (pre ++ tok ++ post) → (∀ l ∈ ls, ∀ c ∈ l, 1 ≤ c.bytes) →
-        sourceSliceText ls { start := lexPos k pre, stop := lexPos k (pre ++ tok) } = some tok) := by
-  intro h
-  let a (c : Nat) : Ch := { cp := c, bytes := 1, width := 1 }
-  let e : Ch := { cp := 233, bytes := 2, width := 1 }
-  have := h [[e, a 32, a 57, a 57]] 0 [e, a 32] [a 57, a 57] [] (by decide) (by decide)
-  exact absurd this (by decide)
-
-/-- A slice that cuts a character: `'éé'#c` — the comment's span starts at column 4, byte 4 is
-inside the second `é`; the model (like `&source[a..b]`) has no text to return (the formatter panics). -/
-theorem srcslice_panic_witness :
-    let a (c : Nat) : Ch := { cp := c, bytes := 1, width := 1 }
-    let e : Ch := { cp := 233, bytes := 2, width := 1 }
-    let line : Line := [a 39, e, e, a 39, a 35, a 99, a 10]
-    sourceSliceText [line] { start := lexPos 0 (line.take 4), stop := lexPos 0 (line.take 6) } = none := by
-  decide
+      ∧ sourceSliceTextCol [line2] { start := lexPos 0 (line2.take 4), stop := lexPos 0 (line2.take 6) }
+        = none := by decide
 
 end KotoVerif.C11
